@@ -1,0 +1,84 @@
+//go:build verif
+
+package yaml
+
+// Contracts for the simplified YAML node tree, read by the govc verifier (build
+// tag verif). This file contains no executable code.
+//
+// Nodes are immutable once built; calls through the Node interface are resolved to
+// *node, with the obligation that the receiver really is a *node.
+//
+//@ dispatch Node *node
+//@ fields node immutable: typeID tag contents value
+//
+//@ pred validType(t TypeID) = t == TypeIDMap || t == TypeIDSequence || t == TypeIDString
+//
+// wfval: what every method relies on about a node value.
+//@ pred wfval(v node) = validType(v.typeID) && \
+//@   (forall i int :: 0 <= i && i < len(v.contents) ==> wfnode(v.contents[i]) && typeis(v.contents[i], *node) && v.contents[i].(*node) != nil) && \
+//@   (v.typeID == TypeIDMap ==> len(v.contents) % 2 == 0 && \
+//@      (forall k int :: 0 <= k && k < len(v.contents) && k % 2 == 0 ==> v.contents[k].(*node).typeID == TypeIDString))
+//
+// wfnode: a well-formed node tree. Children are older objects than their parent
+// (allocation order), which makes the tree well-founded.
+//@ rpred wfnode(x Node) = typeis(x, *node) && 0 < x.(*node) && allocated(x.(*node)) && wfval(*x.(*node)) && \
+//@   (forall i int :: 0 <= i && i < len(x.(*node).contents) ==> 0 < x.(*node).contents[i].(*node) && x.(*node).contents[i].(*node) < x.(*node))
+//
+// Assumed shape of what gopkg.in/yaml.v3 produces (assumption, listed in evidence):
+// a finite tree along Content; documents have one child; mappings have key/value pairs.
+//@ pure ysize(n *yaml.Node) int
+//@ rpred yamlwf(n *yaml.Node) = n != nil && ysize(n) >= 0 && \
+//@   (forall i int :: 0 <= i && i < len(n.Content) ==> yamlwf(n.Content[i]) && ysize(n.Content[i]) < ysize(n)) && \
+//@   (n.Kind == yaml.DocumentNode ==> len(n.Content) == 1) && \
+//@   (n.Kind == yaml.MappingNode ==> len(n.Content) % 2 == 0)
+//
+//@ func (parser).transform
+//@   requires yamlwf(n)
+//@   decreases ysize(n)
+//@   ensures [node-or-error] result1 == nil ==> wfnode(result)
+//@   ensures [error-has-no-node] result1 != nil ==> result == nil
+//@   loop 1 invariant [children] forall j int :: 0 <= j && j <= rangeidx ==> wfnode(contents[j])
+//@   loop 1 invariant [index] -1 <= rangeidx && len(contents) == len(n.Content)
+//@   loop 2 invariant [keys] i % 2 == 0 && 0 <= i && (forall k int :: 0 <= k && k < i && k < len(contents) && k % 2 == 0 ==> contents[k].(*node).typeID == TypeIDString)
+//
+//@ func (parser).Parse
+//@   ensures [node-or-error] result1 == nil ==> wfnode(result)
+//
+//@ func (*node).Type
+//@   requires n != nil
+//@   ensures result == n.typeID
+//@ func (*node).Tag
+//@   requires n != nil
+//@   ensures result == n.tag
+//@ func (*node).Value
+//@   requires n != nil
+//@   ensures result == n.value
+//@ func (*node).Contents
+//@   requires n != nil
+//@   ensures result == n.contents
+//
+//@ func (*node).MapKeys
+//@   requires n != nil && wfnode(Node(n)) && n.typeID == TypeIDMap
+//@   ensures [half-length] 2*len(result) == len(n.contents)
+//@   ensures [keys-in-order] forall j int :: 0 <= j && j < len(result) ==> result[j] == n.contents[2*j].(*node).value
+//
+//@ func (node).MapKeys
+//@   loop 1 invariant i % 2 == 0 && 0 <= i && 2*len(result) == len(n.contents) && \
+//@      (forall j int :: 0 <= j && 2*j < i && j < len(result) ==> result[j] == n.contents[2*j].(*node).value)
+//
+//@ func (*node).MapKey
+//@   requires n != nil && wfnode(Node(n)) && n.typeID == TypeIDMap
+//@   ensures [found-is-node] result1 ==> wfnode(result) && result.(*node) < n
+//@   ensures [existing-key-found] (exists k int :: 0 <= k && k < len(n.contents) && k % 2 == 0 && n.contents[k].(*node).value == key) ==> result1
+//
+//@ func (node).MapKey
+//@   loop 1 invariant i % 2 == 0 && 0 <= i && \
+//@      (forall k int :: 0 <= k && k < i && k < len(n.contents) && k % 2 == 0 ==> n.contents[k].(*node).value != key)
+//
+//@ func (*node).Raw
+//@   requires n != nil && wfnode(Node(n))
+//@   decreases n
+//@   ensures [scalar-is-its-value] n.typeID == TypeIDString ==> result == any(n.value)
+//
+//@ func (node).Raw
+//@   loop 1 invariant i % 2 == 0 && 0 <= i
